@@ -479,7 +479,22 @@ func (s *c09Scenario) deriveObject(recv at.Object, arg at.Object, which int) (na
 				pick = append(pick, keys.GetString(i))
 			}
 		}
-		return fmt.Sprintf("Pluck(%q)", pick), recv.Pluck(pick...)
+		// duplicates inside the spread slice, with other keys after them
+		for i := r.Intn(3); i > 0 && len(pick) > 0; i-- {
+			at := r.Intn(len(pick) + 1)
+			dup := pick[r.Intn(len(pick))]
+			pick = append(pick[:at], append([]string{dup}, pick[at:]...)...)
+		}
+		before := append([]string{}, pick...)
+		res := recv.Pluck(pick...)
+		for i := range before {
+			if i >= len(pick) || pick[i] != before[i] {
+				s.failed = true
+				s.c.Violate("deriving-op-modifies-input:Pluck-keys-argument", s.input(), fmt.Sprintf("the keys slice passed to Pluck stays %q", before), fmt.Sprintf("%q", pick))
+				break
+			}
+		}
+		return fmt.Sprintf("Pluck(%q...)", before), res
 	case 3:
 		return "Keys()", recv.Keys()
 	case 4:
